@@ -25,7 +25,7 @@ case "$PKG" in *.go) PKG=$(dirname "$PKG");; esac
 [ -z "$RUN" ] && RUN=.
 echo "SEED $(basename $(dirname $D))/$(basename $D): demo dir=$PKG run=$RUN"
 demos=$(ls "$D"/*_test.go 2>/dev/null)
-cp $demos "$W/$PKG/" || exit 3
+mkdir -p "$W/$PKG"; cp $demos "$W/$PKG/" || exit 3
 ( cd "$W" && $GO test -vet=off -count=1 -run "$RUN" "./$PKG/" >"$W/.demo0.log" 2>&1 ); r0=$?
 if ! git -C "$W" apply "$D/patch.diff"; then echo "  PATCH-DOES-NOT-APPLY"; exit 3; fi
 ( cd "$W" && $GO build ./... >"$W/.build.log" 2>&1 ) || { echo "  DOES-NOT-COMPILE"; tail -5 "$W/.build.log"; exit 3; }
